@@ -2,7 +2,10 @@
 """C11 - the Niemeyer geohash codec is a consistent hierarchical tiling.  DESIGN.md section 5 / C11.
 
 Tie: (T) the three _NIEMEYER_CONFIG tables are regenerated from the tree under check and proved
-equal to the model's tables, and `cfg_ok` is re-proved for them (coq/geneq/GeohashCfgGenEq.v);
+equal to the model's tables, and `cfg_ok` is re-proved for them (coq/geneq/GeohashCfgGenEq.v); the codec
+functions (_decode_niemeyer, _coord_to_niemeyer, _get_niemeyer_subhashes, niemeyer_to_geobox,
+NiemeyerHasher.__init__) are re-translated from the source and proved equal to the model's functions
+for all arguments (coq/geneq/GeohashGenEq.v);
 (K) the bisection algorithms are compared with the model by vm_compute on every in-range cell
 down to depth 3/2/2 and on seeded random coordinates at lengths 1..12.  The property itself is
 also evaluated on the implementation's answers (oracle_*), so that a break is reported with a
@@ -163,6 +166,8 @@ def main():
     ck.build_theories(['theories/Props/C11.vo', 'theories/Corr/GeohashK.vo'])
     rep = gen_geohash.main(REPO, os.path.join(ck.rundir, 'GeohashCfgGen.v'))
     ck.gen('GeohashCfgGen.v', rep, 'GeohashCfgGenEq.v')
+    rep = gen_geohash.main_codec(REPO, os.path.join(ck.rundir, 'GeohashGen.v'))
+    ck.gen('GeohashGen.v', rep, 'GeohashGenEq.v')
     ck.props('Props/C11.v')
 
     rng = ck.rng
